@@ -50,6 +50,8 @@ func init() {
 		{Name: "tuple release forwards to pop-no-release", File: "internal/backends/compiler_wat/wir/value_tuple.go", Old: "func (v *aTuple) EmitRelease() []wat.Inst { return v.aStruct.EmitRelease() }", New: "func (v *aTuple) EmitRelease() []wat.Inst { return v.aStruct.EmitPopNoRelease() }", Expect: "forwarder-purity :: aTuple.EmitRelease"},
 		{Name: "runtime frees while references remain", File: hp, Old: "\t\tlocal.get $ptr\n\t\tcall $runtime.HeapFree\n\tend  ;;ref_count == 0", New: "\tend  ;;ref_count == 0\n\tlocal.get $ptr\n\tcall $runtime.HeapFree", Expect: "free-discipline :: $runtime.Block.Release"},
 		{Name: "a second caller of the raw free", File: hp, Old: "(func $runtime.Block.SetFinalizer (param $ptr i32) (param $release_func i32)\n\tlocal.get $ptr\n\tif", New: "(func $runtime.Block.SetFinalizer (param $ptr i32) (param $release_func i32)\n\tlocal.get $ptr\n\tcall $runtime.free\n\tlocal.get $ptr\n\tif", Expect: "free-discipline :: callers of $runtime.free"},
+		{Name: "HeapAlloc does not look at the allocator's answer", File: hp, Old: "\tlocal.get $ptr\n\ti32.eqz\n\tif\n\t\tunreachable\n\tend\n", New: "", Expect: "alloc-failure-not-used"},
+		{Name: "Block.HeapAlloc computes the size in 32 bits only", File: hp, Old: "  i64.const 4294967279 ;; 2^32-17\n  i64.gt_u\n  if\n    unreachable\n  end\n", New: "  drop\n", Expect: "alloc-size-no-wrap"},
 		{Name: "allocation no longer zeroed", File: hp, Old: "\t\ti64.const 0\n\t\ti64.store\n", New: "\t\tdrop\n", Expect: "alloc-zeroed"},
 	}})
 	register(&Property{ID: "C12", Run: runC12, Mutants: []Mutant{
@@ -394,6 +396,18 @@ func c11Runtime(c *Ctx, p *Prog) {
 	} else {
 		good, detail := c11AllocZeroed(m, ha)
 		c.Check(good, r5, "$runtime.HeapAlloc", fmt.Sprintf("%s:%d", ha.File, ha.Line), "every returned block is zeroed over its whole size", "$runtime.HeapAlloc: "+detail+": fresh blocks contain stale bytes that the generated code reads as reference counts and pointers")
+	}
+	if ha, ok := m.ByName["$runtime.HeapAlloc"]; ok {
+		good, detail, n := c11AllocFailure(m, ha)
+		c.Check(good, "alloc-failure-not-used", "$runtime.HeapAlloc", fmt.Sprintf("%s:%d", ha.File, ha.Line), "the allocator's answer is tested before it is stored through", "$runtime.HeapAlloc: "+detail)
+		c.Min("alloc-failure-not-used", "paths of $runtime.HeapAlloc that store through the new block", n, 1)
+	}
+	if bh, ok := m.ByName["$runtime.Block.HeapAlloc"]; !ok {
+		c.Undecided("alloc-size-no-wrap", "$runtime.Block.HeapAlloc", "", "function not found")
+	} else {
+		good, detail, n := c11AllocSizeNoWrap(m, bh)
+		c.Check(good, "alloc-size-no-wrap", "$runtime.Block.HeapAlloc", fmt.Sprintf("%s:%d", bh.File, bh.Line), "the 64-bit product of count and item size is bounded before the 32-bit size is used", "$runtime.Block.HeapAlloc: "+detail)
+		c.Min("alloc-size-no-wrap", "paths of $runtime.Block.HeapAlloc that allocate", n, 1)
 	}
 }
 
